@@ -341,6 +341,8 @@ class Ctx:
         if write_evidence:
             # development override (VERIF_REPO = a scratch worktree): keep the committed evidence of /repo untouched
             evdir = os.path.join(ROOT, "evidence") if REPO == "/repo" else os.path.join(ROOT, "work", "evidence-dev")
+            if not re.match(r"C\d\d$", self.pid):     # specifications beyond the listed properties
+                evdir = os.path.join(evdir, "extra")
             os.makedirs(evdir, exist_ok=True)
             with open(os.path.join(evdir, self.pid + ".json"), "w") as fh:
                 json.dump(ev, fh, indent=1, default=str)
